@@ -892,6 +892,46 @@ pub fn run(_scenario: u32, choices: &[u8], _strict: bool) -> Outcome {
         }
       }
     }
+    // the same submessage under the key material of the wrong kind of endpoint: a writer
+    // submessage encoded with the keys receiver 0 registered for its DataReader (and sent to the
+    // sender), a reader submessage encoded with the keys of the sender's DataWriter
+    {
+      let cross = if writer_side {
+        receivers[0].crypto.encode_datareader_submessage(plain_sub.clone(), receivers[0].reader, vec![receivers[0].sender_w])
+      } else {
+        sender.crypto.encode_datawriter_submessage(plain_sub.clone(), sender.w, all_r.clone())
+      };
+      if let Ok(EncodedSubmessage::Encoded(a, b, c2)) = cross {
+        let xb = serialize(&Message {
+          header: plain_msg.header,
+          submessages: vec![a, b, c2],
+        });
+        let (xc, xlp, xrp) = if writer_side {
+          (&sender.crypto, sender.p, sender.recv_p[0])
+        } else {
+          (&receivers[0].crypto, receivers[0].p, receivers[0].sender_p)
+        };
+        match decode_sub_at(xc, xlp, xrp, &xb) {
+          Dec::Success((SubmessageBody::Writer(_), h)) if writer_side => {
+            o.violate(
+              "c16.wrong-key-material-accepted",
+              "submessage-endpoint-kind",
+              format!("{cfg:?}: writer submessage {name} encoded under the key material of a remote DataReader decoded for local endpoints {h:?}"),
+            );
+            return o;
+          }
+          Dec::Success((SubmessageBody::Reader(_), h)) if !writer_side => {
+            o.violate(
+              "c16.wrong-key-material-accepted",
+              "submessage-endpoint-kind",
+              format!("{cfg:?}: reader submessage {name} encoded under the key material of a remote DataWriter decoded for local endpoints {h:?}"),
+            );
+            return o;
+          }
+          _ => o.label("wrong-endpoint-kind-keys-rejected"),
+        }
+      }
+    }
     let (crypto0, lp0, rp0, _) = targets[0];
     // addressed to somebody else only
     if writer_side && cfg.receivers >= 2 {
